@@ -46,6 +46,8 @@ pub fn solve_instance(input_data: serde_json::Value) -> serde_json::Value {
     println!("Solve with MinCostFlowSolver:");
     let min_cost_flow_solver = MinCostFlowSolver::initialize(network.clone());
     let start_schedule = min_cost_flow_solver.solve();
+    #[cfg(rssched_verif)]
+    solution::verif::record_stage("mcf", &start_schedule);
     println!(
         "MinCostFlowSolver computed schedule (elapsed time: {:0.2}sec)",
         start_time.elapsed().as_secs_f32()
@@ -56,6 +58,8 @@ pub fn solve_instance(input_data: serde_json::Value) -> serde_json::Value {
         SwapInfo::NoSwap,
         "Result from min cost flow solver".to_string(),
     );
+    #[cfg(rssched_verif)]
+    solution::verif::record_stage("start", start_schedule_with_info.get_schedule());
 
     let solution = if network.maintenance_considered() {
         println!("\nStarting local search:\n");
@@ -80,6 +84,8 @@ pub fn solve_instance(input_data: serde_json::Value) -> serde_json::Value {
     let start_time_transition_optimization = stdtime::Instant::now();
     let mut optimized_transitions: HashMap<VehicleTypeIdx, Transition> = HashMap::new();
     let schedule = solution.solution().get_schedule();
+    #[cfg(rssched_verif)]
+    solution::verif::record_stage("ls", schedule);
     let transition_local_search_solver =
         build_transition_local_search_solver(schedule, network.clone());
     for vehicle_type in network.vehicle_types().iter() {
@@ -100,6 +106,8 @@ pub fn solve_instance(input_data: serde_json::Value) -> serde_json::Value {
     }
     let schedule_with_optimized_transitions =
         schedule.set_next_day_transitions(optimized_transitions);
+    #[cfg(rssched_verif)]
+    solution::verif::record_stage("transopt", &schedule_with_optimized_transitions);
     println!(
         "Transition optimized (elapsed time: {:0.2}sec)",
         start_time_transition_optimization.elapsed().as_secs_f32()
@@ -117,6 +125,8 @@ pub fn solve_instance(input_data: serde_json::Value) -> serde_json::Value {
         "Final schedule after reassigning end depots".to_string(),
     );
     let final_solution = objective.evaluate(final_schedule_with_info);
+    #[cfg(rssched_verif)]
+    solution::verif::record_stage("final", final_solution.solution().get_schedule());
 
     let end_time = stdtime::Instant::now();
     let runtime_duration = end_time.duration_since(start_time);
